@@ -68,4 +68,178 @@ def sampleHeap : List NodeRec := [
   { cat := .While, ops := [some 5, some 7] },
   { cat := .Block, seq := [4, 8] }]
 
+/-! ## A heap that is cyclic along printed operands: a class whose base type is a `Forall` with the class as target
+
+`S : class = <unnamed class c>`, `c` has one base of type `f = forall<>(c)`.  `xpr_type_expr_visitor::visit(Forall)` prints its
+target through `xpr_type_expr` — the *body* of the class, not its name — so the printer goes
+class body → base → `xpr_type(f)` → `xpr_type_expr(f)` → `xpr_type_expr(c)` → class body → … without bound.
+No `rank` in the sense of `Ranked` exists for this heap (4 → 6 → 7 → 4), so it is outside theorem `C18_fuel`; the model
+exhausts *every* amount of fuel (`cyclicClass_exhausts`), as the real printer exhausts every stack. -/
+
+/-- 0 Typedecl S : class (init 4) · 1 "S" · 2 built-in `class` · 3 "class" · 4 Class (unnamed; scope 5; bases [6]) · 5 Scope ·
+    6 Base_type of type 7 · 7 Forall (source 8, target 4) · 8 Product () · 9 the unit's global Scope [0] -/
+def cyclicClassHeap : List NodeRec := [
+  { cat := .Typedecl, name := some 1, typ := some 2, ops := [some 4] },
+  { cat := .Identifier, str := [83] },
+  { cat := .As_type, ops := [some 2], name := some 3 },
+  { cat := .Identifier, str := [99, 108, 97, 115, 115] },
+  { cat := .Class, ops := [some 5], seq2 := [6] },
+  { cat := .Scope },
+  { cat := .Base_type, typ := some 7, ops := [none] },
+  { cat := .Forall, ops := [some 8, some 4] },
+  { cat := .Product },
+  { cat := .Scope, seq := [0] }]
+
+theorem Res.bind_fuel {r : Res} {f : PState → Res} (hr : r.status = .fuel) : (r.bind f).status = .fuel := by
+  unfold Res.bind; rw [hr]; exact hr
+
+/-- A primitive instruction (no dispatch, no throw) always succeeds. -/
+theorem step_prim_ok {h : Heap} {rec : Rec} {cls : VClass} {strict : Bool} {a : Addr} {r : NodeRec} {i : Instr} {st : PState}
+    (hr : i.isRec = false) (ht : i ≠ .throw) : (step h rec cls strict a r i st).status = .ok := by
+  cases i <;> simp_all [step, Instr.isRec]
+
+theorem prims_ok {h : Heap} {rec : Rec} {cls : VClass} {strict : Bool} {a : Addr} {r : NodeRec} {pre : List Instr}
+    (hp : pre.all (fun j => !j.isRec && j != .throw) = true) : ∀ j ∈ pre, ∀ st, (step h rec cls strict a r j st).status = .ok := by
+  intro j hj st
+  have := List.all_eq_true.mp hp j hj
+  simp only [Bool.and_eq_true, Bool.not_eq_true', bne_iff_ne, ne_eq] at this
+  exact step_prim_ok this.1 this.2
+
+/-- If the instructions before `i` succeed and `i` exhausts the fuel, so does the whole production. -/
+theorem runInstrs_stuck {h : Heap} {rec : Rec} {cls : VClass} {strict : Bool} {a : Addr} {r : NodeRec} (i : Instr) (post : List Instr)
+    (hi : ∀ st, (step h rec cls strict a r i st).status = .fuel) :
+    ∀ (pre : List Instr) (st : PState), (∀ j ∈ pre, ∀ st, (step h rec cls strict a r j st).status = .ok) →
+      (runInstrs h rec cls strict a r (pre ++ i :: post) st).status = .fuel
+  | [], st, _ => by simp only [List.nil_append, runInstrs]; exact Res.bind_fuel (hi st)
+  | j :: pre, st, hp => by
+    simp only [List.cons_append, runInstrs]
+    have hok : (step h rec cls strict a r j st).status = .ok := hp j (by simp) st
+    unfold Res.bind
+    rw [hok]
+    exact runInstrs_stuck i post hi pre _ fun k hk => hp k (by simp [hk])
+
+theorem dispatch_stuck {h : Heap} {o : Opts} {n : Nat} {e : Entry} {a : Addr} (pre : List Instr) (i : Instr) (post : List Instr)
+    (hprod : production h e a = pre ++ i :: post)
+    (hpre : ∀ j ∈ pre, ∀ st, (step h (dispatch h o n) e.cls e.strict a (h a) j st).status = .ok)
+    (hi : ∀ st, (step h (dispatch h o n) e.cls e.strict a (h a) i st).status = .fuel) (st : PState) :
+    (dispatch h o (n + 1) e a st).status = .fuel := by
+  simp only [dispatch]
+  rw [hprod]
+  exact Res.bind_fuel (runInstrs_stuck i post hi pre _ hpre)
+
+/-- Every amount of fuel is exhausted on each of the four configurations of the cycle. -/
+theorem cyclicClass_cycle (o : Opts) : ∀ n : Nat,
+    (∀ st, (dispatch (heapOf cyclicClassHeap) o n xtypeExpr 4 st).status = .fuel) ∧
+    (∀ st, (dispatch (heapOf cyclicClassHeap) o n (.xdecl false) 6 st).status = .fuel) ∧
+    (∀ st, (dispatch (heapOf cyclicClassHeap) o n xtype 7 st).status = .fuel) ∧
+    (∀ st, (dispatch (heapOf cyclicClassHeap) o n xtypeExpr 7 st).status = .fuel)
+  | 0 => by simp [dispatch]
+  | n + 1 => by
+    obtain ⟨hA, hB, hC, hD⟩ := cyclicClass_cycle o n
+    refine ⟨fun st => ?_, fun st => ?_, fun st => ?_, fun st => ?_⟩
+    · -- class body: "(" then the bases
+      refine dispatch_stuck [.tok "("] (.each .commaDecl [] .seq2)
+        [.tok ")", .tok " ", .tok "{", .nlIndent 3, .acc xexpr [.op 0], .nlIndent (-3), .tok "}", .needNl] (by decide +kernel) (prims_ok (by decide)) (fun st' => ?_) st
+      have hp : ((heapOf cyclicClassHeap) 4).pick .seq2 = [6] := by decide +kernel
+      simp only [step, follow, hp, runSeq]
+      exact Res.bind_fuel (hB _)
+    · -- base: specifiers (none), then its type
+      refine dispatch_stuck [.words] (.acc xtype [.typ]) [] (by decide +kernel) (prims_ok (by decide)) (fun st' => ?_) st
+      have hf : follow (heapOf cyclicClassHeap) 6 [.typ] = some 7 := by decide +kernel
+      simp only [step, hf]
+      exact hC _
+    · -- xpr_type(Forall) forwards to xpr_type_expr on the same node
+      refine dispatch_stuck [] (.acc xtypeExpr []) [] (by decide +kernel) (by simp) (fun st' => ?_) st
+      simp only [step, follow]
+      exact hD _
+    · -- "<" parameters ">" " " then the *type expression* of the target: the class body again
+      refine dispatch_stuck [.tok "<", .each .commaType [.op 0] .seq, .tok ">", .tok " "] (.acc xtypeExpr [.op 1]) []
+        (by decide +kernel) ?_ (fun st' => ?_) st
+      · intro j hj st'
+        simp only [List.mem_cons, List.not_mem_nil, or_false] at hj
+        rcases hj with rfl | rfl | rfl | rfl
+        · rfl
+        · have hf : follow (heapOf cyclicClassHeap) 7 [.op 0] = some 8 := by decide +kernel
+          have hs : ((heapOf cyclicClassHeap) 8).pick .seq = [] := by decide +kernel
+          simp only [step, hf, hs, runSeq]
+        · rfl
+        · rfl
+      · have hf : follow (heapOf cyclicClassHeap) 7 [.op 1] = some 4 := by decide +kernel
+        simp only [step, hf]
+        exact hA _
+
+/-- As `runInstrs_stuck`, when the instructions before `i` may themselves run out of fuel (but never raise). -/
+theorem runInstrs_stuck' {h : Heap} {rec : Rec} {cls : VClass} {strict : Bool} {a : Addr} {r : NodeRec} (i : Instr) (post : List Instr)
+    (hi : ∀ st, (step h rec cls strict a r i st).status = .fuel) :
+    ∀ (pre : List Instr) (st : PState), (∀ j ∈ pre, ∀ st, (step h rec cls strict a r j st).status ≠ .logic) →
+      (runInstrs h rec cls strict a r (pre ++ i :: post) st).status = .fuel
+  | [], st, _ => by simp only [List.nil_append, runInstrs]; exact Res.bind_fuel (hi st)
+  | j :: pre, st, hp => by
+    simp only [List.cons_append, runInstrs]
+    cases hs : (step h rec cls strict a r j st).status with
+    | ok => unfold Res.bind; rw [hs]; exact runInstrs_stuck' i post hi pre _ fun k hk => hp k (by simp [hk])
+    | fuel => exact Res.bind_fuel hs
+    | logic => exact absurd hs (hp j (by simp) st)
+
+theorem bind_noLogic {r : Res} {f : PState → Res} (hr : r.status ≠ .logic) (hf : ∀ st, (f st).status ≠ .logic) :
+    (r.bind f).status ≠ .logic := by
+  unfold Res.bind
+  split
+  · exact hf _
+  · exact hr
+
+/-- Printing an identifier never raises. -/
+theorem ident_noLogic {h : Heap} (o : Opts) (a : Addr) (hp : production h xname a = [.idStr]) :
+    ∀ (n : Nat) (st : PState), (dispatch h o n xname a st).status ≠ .logic
+  | 0, _ => by simp [dispatch]
+  | n + 1, st => by simp [dispatch, hp, runInstrs, step, Res.bind]
+
+/-- Printing the built-in `class` (node 2) never raises. -/
+theorem builtin_noLogic (o : Opts) : ∀ (n : Nat) (st : PState), (dispatch (heapOf cyclicClassHeap) o n xtype 2 st).status ≠ .logic
+  | 0, _ => by simp [dispatch]
+  | n + 1, st => by
+    have hp : production (heapOf cyclicClassHeap) xtype 2 = [.acc xname [.name]] := by decide +kernel
+    have hf : follow (heapOf cyclicClassHeap) 2 [.name] = some 3 := by decide +kernel
+    have hn := ident_noLogic (h := heapOf cyclicClassHeap) o 3 (by decide +kernel) n
+    simp only [dispatch, hp, runInstrs, step, hf]
+    exact bind_noLogic (bind_noLogic (hn _) fun _ => by simp) fun _ => by simp
+
+/-- `xpr_decl` of the type declaration: name, " : ", type, then the initializer's type expression — the cycle. -/
+theorem cyclicClass_decl (o : Opts) (semi : Bool) : ∀ (n : Nat) (st : PState),
+    (dispatch (heapOf cyclicClassHeap) o n (.xdecl semi) 0 st).status = .fuel
+  | 0, _ => by simp [dispatch]
+  | n + 1, st => by
+    have hp : production (heapOf cyclicClassHeap) (.xdecl semi) 0 =
+        [.acc xname [.name], .tok " : ", .acc xtype [.typ]] ++ .acc xtypeExpr [.op 0] :: [] := by
+      cases semi <;> decide +kernel
+    have hf1 : follow (heapOf cyclicClassHeap) 0 [.name] = some 1 := by decide +kernel
+    have hf2 : follow (heapOf cyclicClassHeap) 0 [.typ] = some 2 := by decide +kernel
+    have hf3 : follow (heapOf cyclicClassHeap) 0 [.op 0] = some 4 := by decide +kernel
+    simp only [dispatch]
+    rw [hp]
+    refine Res.bind_fuel (runInstrs_stuck' _ _ (fun st' => ?_) _ _ fun j hj st' => ?_)
+    · simp only [step, hf3]; exact (cyclicClass_cycle o n).1 _
+    · simp only [List.mem_cons, List.not_mem_nil, or_false] at hj
+      rcases hj with rfl | rfl | rfl
+      · simp only [step, hf1]; exact ident_noLogic o 1 (by decide +kernel) n _
+      · simp [step]
+      · simp only [step, hf2]; exact builtin_noLogic o n _
+
+/-- **The model does not terminate on the cyclic class either:** whatever the fuel, printing the type declaration
+    (`xpr_decl`, with or without semicolon), the unit (`xpr_expr` of its global scope) or the base's `Forall` type
+    (`xpr_type`) ends with the fuel exhausted — never with text, never with `logic_error`. -/
+theorem cyclicClass_exhausts (o : Opts) (fuel : Nat) (fmt : Fmt) :
+    (print (heapOf cyclicClassHeap) o fuel .decl 0 fmt).status = .fuel ∧
+    (print (heapOf cyclicClassHeap) o fuel .declsemi 0 fmt).status = .fuel ∧
+    (print (heapOf cyclicClassHeap) o fuel .type 7 fmt).status = .fuel ∧
+    (print (heapOf cyclicClassHeap) o fuel .expr 9 fmt).status = .fuel := by
+  refine ⟨cyclicClass_decl o false fuel _, cyclicClass_decl o true fuel _, (cyclicClass_cycle o fuel).2.2.1 _, ?_⟩
+  cases fuel with
+  | zero => simp [print, dispatch]
+  | succ n =>
+    refine dispatch_stuck [] (.each .scopeDecl [] .seq) [] (by decide +kernel) (by simp) (fun st' => ?_) _
+    have hs : ((heapOf cyclicClassHeap) 9).pick .seq = [0] := by decide +kernel
+    simp only [step, follow, hs, runSeq]
+    exact Res.bind_fuel (cyclicClass_decl o true n _)
+
 end Ipr.Printer
